@@ -10,6 +10,10 @@
 //   FftFilter  per block   ||y - yref||_2 <= 128 N eps ||c||_1 (||x_blk||_2 + ||x_prevblk||_2)     (see note [olap])
 //   xcorr      whole       ||r - rref||_2 <= 128 M eps ||a||_2 ||b||_2,  M = 2^ceil(log2(n1+n2-1))
 //   MAFilter   per sample  |y - yref| <= 4 n eps max_{j<=i} |x_j|
+// Additions (coverage audit): FftFilter with coefficient and input of different types (real h / complex x; complex h / real x, where
+// the arr_real return type can only carry the real part of the sum -- see fftf_check), FftFilter with one tap, the public static
+// FirFilter<T>::conv (valid part of the same sum), the mutable FirFilter::coeffs() reference (fir_coeffs), xcorr length sums at
+// 2^k-1 | 2^k | 2^k+1 up to k = 13 generated on purpose.
 // [olap] DESIGN writes the FftFilter bound with ||x_blk|| only.  Overlap-add puts the tail of the previous block's circular
 // convolution into this block, so its rounding error scales with the previous block too (a 1e+100 block followed by an O(1)
 // block leaves an error of eps*1e+100 in the first m-1 outputs of the latter).  The two-block form is the derived bound.
@@ -315,11 +319,218 @@ static void fir_gen(Ctx& ctx) {
     }
 }
 
-// ------------------------------------------------------------------------------------------- FftFilter
+// ------------------------------------------------------------------------------------------- FirFilter<T>::conv (public static)
+// conv(x, h) is the kernel process() applies to (history | frame): the part of the defining sum where all nh taps are inside x,
+//   r[i] = sum_k conj?(h[k]) x[i + nh-1 - k],  i = 0 .. nx-nh      (nx-nh+1 values; none for nx = nh-1, which is what process()
+// itself passes for an empty frame).  nx < nh-1 is outside the kernel's domain (lib/fir.cpp asserts nr > 0): an exception or an
+// empty result is accepted there, values are not.  From rest, process(x) merely forwards to conv(zeros(nh-1) | x, h): bit-exact.
+namespace {
+template<class T> bool same_bits(const base_array<T>& a, const base_array<T>& b) {
+    if (a.size() != b.size()) return false;
+    for (int i = 0; i < a.size(); ++i) {
+        const cd p = tocd(a[i]), q = tocd(b[i]);
+        auto eq = [](double u, double v) { return u == v || (std::isnan(u) && std::isnan(v)); };
+        if (!eq(p.real(), q.real()) || !eq(p.imag(), q.imag())) return false;
+    }
+    return true;
+}
+template<class T>
+void run_conv(const std::vector<cd>& h, const std::vector<cd>& x, bool cplx, Out& o) {
+    const int nh = int(h.size()), nx = int(x.size()), nout = nx - nh + 1;
+    const base_array<T> H = mk<T>(h, 0, h.size()), X = mk<T>(x, 0, x.size());
+    if (nout < 0) {
+        try {
+            const base_array<T> r = FirFilter<T>::conv(X, H);
+            o.label(r.size() == 0 ? "nx<nh-1: empty result" : "nx<nh-1: values");
+            if (r.size() != 0) o.fail("conv:short-input:values", fmt("FirFilter::conv(x[%d], h[%d]) returned %d values although no output position has all taps inside x", nx, nh, r.size()));
+        } catch (const std::exception&) { o.label("nx<nh-1: exception (outside the kernel's domain)"); }
+        return;
+    }
+    const base_array<T> r = FirFilter<T>::conv(X, H);
+    if (r.size() != nout) { o.fail("conv:length", fmt("FirFilter::conv(x[%d], h[%d]) returned %d values, expected nx-nh+1 = %d", nx, nh, r.size(), nout)); return; }
+    const FirRef R = ld_fir(h, x, x.size(), cplx);
+    double worst = 0;
+    for (int i = 0; i < nout; ++i) {
+        const size_t j = size_t(i + nh - 1);
+        const cd v = tocd(r[i]);
+        const ld e = finite_cd(v) ? err_at(R, j, v) : ld(INFINITY), tol = 4 * ld(nh) * EPS * R.s[j];
+        worst = std::max(worst, tol > 0 ? double(e / tol) : (e == 0 ? 0.0 : 1e300));
+        if (!(e <= tol)) {
+            o.fail(cplx ? "conv:value:complex" : "conv:value:real",
+                   fmt("FirFilter<%s>::conv(x[%d], h[%d]): r[%d]=(%.17g,%.17g), sum_k conj(h[k])x[i+nh-1-k]=(%.17Lg,%.17Lg), |diff|=%.3Lg > 4 nh eps sum|h||x| = %.3Lg", cplx ? "cmplx" : "real", nx,
+                       nh, i, v.real(), v.imag(), R.yr[j], R.yi[j], e, tol));
+            return;
+        }
+    }
+    o.metric("conv err/tol", worst);
+    if (nh >= 2) {   // process() from rest == conv over the zero-prefixed input, bit for bit
+        std::vector<cd> xz(size_t(nh - 1), cd(0, 0));
+        xz.insert(xz.end(), x.begin(), x.end());
+        const base_array<T> viaconv = FirFilter<T>::conv(mk<T>(xz, 0, xz.size()), H);
+        FirFilter<T> f(H);
+        const base_array<T> viaproc = f.process(X);
+        if (!same_bits(viaconv, viaproc)) o.fail("conv:vs-process", fmt("FirFilter(h[%d]).process(x[%d]) from rest differs from conv(zeros(nh-1)|x, h) (sizes %d / %d)", nh, nx, viaproc.size(), viaconv.size()));
+    }
+}
+}   // namespace
+
+VK_SUB(cv, "fir_conv");
+static void cv_check(const Json& c, Out& o) {
+    const bool cplx = c.geti("cplx") != 0;
+    const int nh = c.geti("nh"), hcls = c.geti("hcls"), nx = c.geti("nx"), xcls = c.geti("xcls");
+    Rng r(c.getu("seed"));
+    const auto h = gen_coeffs(r, nh, hcls, cplx);
+    const auto x = gen_input(r, nx, xcls, cplx);
+    if (cplx) run_conv<cmplx_t>(h, x, true, o);
+    else run_conv<real_t>(h, x, false, o);
+    bool nz = false;
+    for (auto& v : x) nz |= v != cd(0, 0);
+    if (nx >= nh + 1 && nz) o.nontrivial(key_of(5, int(cplx), nh, len_class(nx), hcls, xcls));
+    o.label(cplx ? "type:complex" : "type:real");
+    o.label(std::string("h:") + h_name(hcls));
+    o.label(std::string("x:") + x_name(xcls));
+    o.label(nh == 1 ? "nh:1" : nh == 2 ? "nh:2" : nh <= 24 ? "nh:3..24" : "nh:25..1024");
+    o.label(nx < nh - 1 ? "rel:nx<nh-1 (h longer than x, outside the kernel's domain)" : nx == nh - 1 ? "rel:nx==nh-1 (h longer than x: no output)" : nx == nh ? "rel:nx==nh (one output)" : "rel:nx>nh");
+    if (nx == 1) o.label(nh == 1 ? "nx:1,nh:1" : "nx:1");
+    o.label("nx:" + len_label(nx));
+}
+static void cv_gen(Ctx& ctx) {
+    // (1) grid: nh in 1..24 x coefficient class x type x input lengths around nh (h longer than x included)
+    for (int nh = 1; nh <= 24; ++nh)
+        for (int hcls = 0; hcls < H_NCLS; ++hcls)
+            for (int cplx = 0; cplx < 2; ++cplx) {
+                const int nxs[] = {0, 1, nh - 3, nh - 2, nh - 1, nh, nh + 1, 3 * nh + 2};
+                int j = 0;
+                for (int nx : nxs) {
+                    ++j;
+                    if (nx < 0 || (j > 2 && nx <= 1)) continue;
+                    if (!ctx.mine()) continue;
+                    ctx.eval(Json::object().set("cplx", cplx).set("nh", nh).set("hcls", hcls).set("nx", nx).set("xcls", int(j & 1 ? S_GAUSS : S_DYNRANGE))
+                               .set("seed", (long long)(mix(ctx.seed, key_of(nh, hcls, cplx, nx, 0xC0)) >> 16)));
+                }
+            }
+    // (2) rapidcheck: nh 1..1024, nx 0..20000 with nh*nx <= 1e6
+    ctx.rc("random", ctx.by_tier(20000, 320000), [&]() {
+        const int nh = pick(0, 7) == 0 ? 1 : pick_nh();
+        const int m = pick(0, 19);
+        const int top = std::min(20000, std::max(2 * nh, 1000000 / nh));
+        const int nx = m == 0 ? pick(0, nh) : m <= 3 ? nh + pick(-1, 1) : m <= 15 ? nh + pick_log(1, top) : pick_log(1, top);
+        return Json::object().set("cplx", pick(0, 1)).set("nh", nh).set("hcls", pick(0, H_NCLS - 1)).set("nx", nx).set("xcls", pick(0, X_NCLS - 1)).set("seed", (long long)seed64());
+    });
+}
+
+// ------------------------------------------------------------------------------------------- FirFilter::coeffs() (mutable reference)
+// The header exposes `base_array<T>& coeffs()` ("current impulse response") next to the const getter.  Writing a coefficient vector
+// of the same length through it makes that vector "the coefficient vector" of the statement: written before any input the filter is
+// at rest and must give sum_k conj?(c2[k]) x[i-k] (strictly inside the property); written after n0 samples the object keeps its
+// delay line (`_d`, "filter delay": the last nh-1 inputs), so every later output is sum_k conj?(c2[k]) x[i-k] over the whole input
+// history.  The first nh-1 outputs after the write mix new taps with old inputs (own sig: a transposed-form filter would differ
+// there and still satisfy the from-rest statement), the later ones depend on inputs fed after the write only.
+// how: 0 = whole-array assignment, 1 = element by element through the reference, 2 = one tap changed (the others kept).
+VK_SUB(cf, "fir_coeffs");
 namespace {
 template<class T>
+void run_coeffs(const std::vector<cd>& h1, std::vector<cd>& h2, const std::vector<cd>& x, int n0, int how, int fm, uint64_t seed, std::vector<cd>& y, Out& o) {
+    const int nh = int(h1.size());
+    const base_array<T> H1 = mk<T>(h1, 0, h1.size());
+    FirFilter<T> f(H1);
+    if (!same_bits(static_cast<const FirFilter<T>&>(f).coeffs(), H1)) { o.fail("fir:coeffs:getter", "coeffs() const of a new filter differs from the constructor argument"); return; }
+    auto feed = [&](size_t from, int n, uint64_t sd) {
+        size_t pos = from;
+        for (int k : frames_of(fm, n, nh, sd)) {
+            const base_array<T> out = f.process(mk<T>(x, pos, size_t(k)));
+            if (out.size() != k) { o.fail(k == 0 ? "fir:empty-frame" : "fir:length", fmt("FirFilter::process of a %d-sample frame returned %d samples", k, out.size())); return; }
+            append(y, out);
+            pos += size_t(k);
+        }
+    };
+    feed(0, n0, seed);
+    if (o.failed) return;
+    if (how == 2) {   // change one tap, keep the others
+        Rng r(mix(seed, 0xC0EF));
+        const size_t j = size_t(r.range(0, nh - 1));
+        std::vector<cd> hh = h1;
+        hh[j] = h2[j] == h1[j] ? h1[j] + cd(1, 0) : h2[j];
+        h2 = hh;
+    }
+    const base_array<T> H2 = mk<T>(h2, 0, h2.size());
+    if (how == 0) f.coeffs() = H2;
+    else {
+        base_array<T>& ref = f.coeffs();
+        for (int k = 0; k < nh; ++k) if (how == 1 || !(tocd(ref[k]) == tocd(H2[k]))) ref[k] = H2[k];
+    }
+    if (!same_bits(static_cast<const FirFilter<T>&>(f).coeffs(), H2)) { o.fail("fir:coeffs:getter", "coeffs() const does not return what was written through the mutable coeffs()"); return; }
+    feed(size_t(n0), int(x.size()) - n0, mix(seed, 0x5EC0));
+}
+}   // namespace
+static void cf_check(const Json& c, Out& o) {
+    const bool cplx = c.geti("cplx") != 0;
+    const int nh = c.geti("nh"), hcls = c.geti("hcls"), hcls2 = c.geti("hcls2"), n0 = c.geti("n0"), n1 = c.geti("n1"), xcls = c.geti("xcls"), fm = c.geti("fm"), how = c.geti("how");
+    Rng r(c.getu("seed"));
+    const auto h1 = gen_coeffs(r, nh, hcls, cplx);
+    auto h2 = gen_coeffs(r, nh, hcls2, cplx);
+    const auto x = gen_input(r, n0 + n1, xcls, cplx);
+    std::vector<cd> y;
+    if (cplx) run_coeffs<cmplx_t>(h1, h2, x, n0, how, fm, c.getu("seed"), y, o);
+    else run_coeffs<real_t>(h1, h2, x, n0, how, fm, c.getu("seed"), y, o);
+    if (o.failed) return;
+    if (y.size() != x.size()) { o.fail("fir:length", "total output length differs from the total input length"); return; }
+    const FirRef R1 = ld_fir(h1, x, size_t(n0), cplx), R2 = ld_fir(h2, x, x.size(), cplx);
+    double worst = 0;
+    bool nz = false;
+    for (size_t i = 0; i < x.size(); ++i) {
+        const bool before = i < size_t(n0);
+        const FirRef& R = before ? R1 : R2;
+        const ld e = finite_cd(y[i]) ? err_at(R, i, y[i]) : ld(INFINITY), tol = 4 * ld(nh) * EPS * R.s[i];
+        worst = std::max(worst, tol > 0 ? double(e / tol) : (e == 0 ? 0.0 : 1e300));
+        if (!before) nz |= R.s[i] > 0;
+        if (!(e <= tol)) {
+            const char* where = before ? "before" : n0 == 0 ? "at-rest" : i < size_t(n0 + nh - 1) ? "transition" : "settled";
+            o.fail(std::string("fir:coeffs-write:") + where,
+                   fmt("FirFilter<%s> nh=%d, coeffs() written (%s) after %d samples: y[%zu]=(%.17g,%.17g), sum_k conj(c%d[k])x[i-k]=(%.17Lg,%.17Lg), |diff|=%.3Lg > 4 nh eps sum|c||x| = %.3Lg", cplx ? "cmplx" : "real",
+                       nh, how == 0 ? "array assignment" : how == 1 ? "element by element" : "one tap", n0, i, y[i].real(), y[i].imag(), before ? 1 : 2, R.yr[i], R.yi[i], e, tol));
+            break;
+        }
+    }
+    o.metric("coeffs-write err/tol", worst);
+    if (n1 > nh && nz && h1 != h2) o.nontrivial(key_of(6, int(cplx), nh, n0 == 0 ? 0 : n0 < nh ? 1 : 2, how, hcls2, xcls));
+    o.label(cplx ? "type:complex" : "type:real");
+    o.label(how == 0 ? "write:array assignment" : how == 1 ? "write:element by element" : "write:one tap");
+    o.label(n0 == 0 ? "written at rest (no input yet)" : n0 < nh - 1 ? "written with a partly filled delay line" : "written with a full delay line");
+    o.label(n1 == 0 ? "after:nothing" : n1 < nh ? "after:transition only" : "after:transition+settled");
+    o.label(std::string("h1:") + h_name(hcls));
+    o.label(std::string("h2:") + h_name(hcls2));
+    o.label(std::string("x:") + x_name(xcls));
+    o.label(std::string("frames:") + f_name(fm));
+}
+static void cf_gen(Ctx& ctx) {
+    for (int nh = 2; nh <= 24; ++nh)
+        for (int cplx = 0; cplx < 2; ++cplx)
+            for (int how = 0; how < 3; ++how) {
+                const int n0s[] = {0, 1, nh - 2, nh - 1, 2 * nh + 1};
+                for (int n0 : n0s) {
+                    if (!ctx.mine()) continue;
+                    Rng r(mix(ctx.seed, key_of(nh, cplx, how, n0, 0xCF)));
+                    ctx.eval(Json::object().set("cplx", cplx).set("nh", nh).set("hcls", r.range(0, H_NCLS - 1)).set("hcls2", r.coin() ? int(H_RANDOM) : r.range(0, H_NCLS - 1)).set("n0", n0)
+                               .set("n1", r.coin() ? 3 * nh + 2 : r.range(0, nh)).set("xcls", r.coin() ? int(S_GAUSS) : int(S_DYNRANGE)).set("fm", r.range(0, 1)).set("how", how).set("seed", (long long)(r.next() >> 16)));
+                }
+            }
+    ctx.rc("random", ctx.by_tier(12000, 200000), [&]() {
+        const int nh = pick_nh();
+        const int top = std::min(4000, std::max(2 * nh, 400000 / nh));
+        const int m = pick(0, 9);
+        const int n0 = m == 0 ? 0 : m <= 3 ? pick(1, nh) : pick_log(1, top);
+        const int n1 = pick(0, 5) == 0 ? pick(0, nh) : nh + pick_log(1, top);
+        return Json::object().set("cplx", pick(0, 1)).set("nh", nh).set("hcls", pick(0, H_NCLS - 1)).set("hcls2", pick(0, H_NCLS - 1)).set("n0", n0).set("n1", n1).set("xcls", pick(0, X_NCLS - 1))
+          .set("fm", one_of<int>({F_WHOLE, F_RANDOM, F_SINGLE})).set("how", pick(0, 2)).set("seed", (long long)seed64());
+    });
+}
+
+// ------------------------------------------------------------------------------------------- FftFilter
+namespace {
+template<class TH, class T>   // TH: type of the coefficient array given to the constructor, T: type of the processed frames
 int run_fftfilt(const std::vector<cd>& h, const std::vector<cd>& x, int fm, uint64_t seed, std::vector<cd>& y, int& nframes, Out& o) {
-    FftFilter f(mk<T>(h, 0, h.size()));
+    FftFilter f(mk<TH>(h, 0, h.size()));
     const int B = f.block_size();
     if (B < 1) { o.fail("fft:block-size", fmt("FftFilter(h[%zu]).block_size() = %d", h.size(), B)); return B; }
     const auto frames = frames_of(fm, int(x.size()), B, seed);
@@ -349,26 +560,52 @@ int run_fftfilt(const std::vector<cd>& h, const std::vector<cd>& x, int fm, uint
 }   // namespace
 
 VK_SUB(fftf, "fft_filter");
+// "mix" (default 0 = coefficient and input of the same type, selected by "cplx"):
+//   1  FftFilter(arr_real h)  . process(arr_cmplx x)   -> complex output, the same sum (conj of a real h is h)
+//   2  FftFilter(arr_cmplx h) . process(arr_real x)    -> the overload returns arr_real: real(process(complex(x)))
+//   3  as 2 with a complex-typed h whose imaginary parts are all zero (the sum is real: the full statement is decidable)
+// For mix 2 the defining sum sum_k conj(c[k]) x[i-k] is complex whenever c has imaginary parts, and an arr_real cannot equal it.
+// The check is strict by default (the imaginary part of the sum counts as error, sig fft:complex-h/real-x:imag-dropped);
+// "reonly":1 compares the real part only.  The generator sets reonly for mix 2 and counts those cases as excluded:... .
+enum { MIX_SAME = 0, MIX_RH_CX = 1, MIX_CH_RX = 2, MIX_CH0_RX = 3 };
 static void fftf_check(const Json& c, Out& o) {
-    const bool cplx = c.geti("cplx") != 0;
+    const int mix = c.geti("mix", 0);
+    const bool reonly = c.geti("reonly", 0) != 0;
+    const bool cplx_h = mix == MIX_SAME ? c.geti("cplx") != 0 : mix == MIX_CH_RX;       // content of h
+    const bool cplx_x = mix == MIX_SAME ? c.geti("cplx") != 0 : mix == MIX_RH_CX;       // content (and type) of x
+    const bool cplx = cplx_h || cplx_x;                                                 // the defining sum is complex
+    const bool out_real = !cplx_x;                                                      // type of the returned array
     const int nh = c.geti("nh"), hcls = c.geti("hcls"), nx = c.geti("nx"), xcls = c.geti("xcls"), fm = c.geti("fm");
     Rng r(c.getu("seed"));
-    const auto h = gen_coeffs(r, nh, hcls, cplx);
-    const auto x = gen_input(r, nx, xcls, cplx);
+    const auto h = gen_coeffs(r, nh, hcls, cplx_h);
+    const auto x = gen_input(r, nx, xcls, cplx_x);
     std::vector<cd> y;
     int nframes = 0;
-    const int B = cplx ? run_fftfilt<cmplx_t>(h, x, fm, c.getu("seed"), y, nframes, o) : run_fftfilt<real_t>(h, x, fm, c.getu("seed"), y, nframes, o);
+    int B;
+    switch (mix) {
+    case MIX_RH_CX: B = run_fftfilt<real_t, cmplx_t>(h, x, fm, c.getu("seed"), y, nframes, o); break;
+    case MIX_CH_RX:
+    case MIX_CH0_RX: B = run_fftfilt<cmplx_t, real_t>(h, x, fm, c.getu("seed"), y, nframes, o); break;
+    default: B = cplx ? run_fftfilt<cmplx_t, cmplx_t>(h, x, fm, c.getu("seed"), y, nframes, o) : run_fftfilt<real_t, real_t>(h, x, fm, c.getu("seed"), y, nframes, o);
+    }
     if (o.failed) return;
+    const char* tname = mix == MIX_RH_CX ? "real-h/complex-x" : mix == MIX_CH_RX ? "complex-h/real-x" : mix == MIX_CH0_RX ? "complex-h(imag=0)/real-x" : cplx ? "cmplx" : "real";
     const size_t L = size_t(nx / B) * size_t(B);
     if (y.size() != L) { o.fail("fft:length", fmt("FftFilter nh=%d block=%d nx=%d emitted %zu samples in total, expected %zu", nh, B, nx, y.size(), L)); return; }
     const int nblk = nx / B;
-    const FirRef R = ld_fir(h, x, L, cplx);
-    // the direct filter on the same input (one call), for "emits the same sequence as the direct one"
+    FirRef R = ld_fir(h, x, L, cplx);
+    // the direct filter on the same input (one call), for "emits the same sequence as the direct one"; mixed types: FirFilter has
+    // one type parameter, so both arrays are promoted to complex; a single tap is outside FirFilter's lengths (its process() throws)
     std::vector<cd> yd;
-    if (L > 0) {
+    const bool direct = nh >= 2;
+    if (L > 0 && direct) {
         if (cplx) { FirFilterC d(mk<cmplx_t>(h, 0, h.size())); append(yd, d.process(mk<cmplx_t>(x, 0, L))); }
         else { FirFilterR d(mk<real_t>(h, 0, h.size())); append(yd, d.process(mk<real_t>(x, 0, L))); }
         if (yd.size() != L) { o.fail("fir:length", "FirFilter output length differs from its input length"); return; }
+    }
+    if (reonly && out_real) {   // real part only: drop the imaginary part of both references
+        for (auto& v : R.yi) v = 0;
+        for (auto& v : yd) v = cd(v.real(), 0);
     }
     ld c1 = 0;
     for (auto& v : h) c1 += hypotl(ld(v.real()), ld(v.imag()));
@@ -382,15 +619,16 @@ static void fftf_check(const Json& c, Out& o) {
         const ld tol = 128 * N * EPS * c1 * (nb + prev);
         prev = nb;
         // scaled l2 of the block error and of the direct filter's a-priori bound
-        ld m = 0, md = 0, mt = 0;
-        std::vector<ld> e(static_cast<size_t>(B)), ed(static_cast<size_t>(B)), td(static_cast<size_t>(B));
+        ld m = 0, md = 0, mt = 0, mre = 0;
+        std::vector<ld> e(static_cast<size_t>(B)), ed(static_cast<size_t>(B)), td(static_cast<size_t>(B)), ere(static_cast<size_t>(B));
         bool fin = true;
         for (size_t i = a; i < b; ++i) {
             fin &= finite_cd(y[i]);
             e[i - a] = err_at(R, i, y[i]);
-            ed[i - a] = hypotl(ld(y[i].real()) - ld(yd[i].real()), ld(y[i].imag()) - ld(yd[i].imag()));
+            ere[i - a] = fabsl(ld(y[i].real()) - R.yr[i]);
+            ed[i - a] = direct ? hypotl(ld(y[i].real()) - ld(yd[i].real()), ld(y[i].imag()) - ld(yd[i].imag())) : ld(0);
             td[i - a] = 4 * ld(nh) * EPS * R.s[i];
-            m = std::max(m, e[i - a]); md = std::max(md, ed[i - a]); mt = std::max(mt, td[i - a]);
+            m = std::max(m, e[i - a]); md = std::max(md, ed[i - a]); mt = std::max(mt, td[i - a]); mre = std::max(mre, ere[i - a]);
             nonzero |= R.s[i] > 0;
         }
         auto nrm = [](const std::vector<ld>& v, ld mx) { if (mx == 0) return ld(0); ld s = 0; for (ld q : v) s += (q / mx) * (q / mx); return mx * sqrtl(s); };
@@ -400,32 +638,44 @@ static void fftf_check(const Json& c, Out& o) {
         if (!(en <= tol)) {
             size_t iw = a;
             for (size_t i = a; i < b; ++i) if (e[i - a] == m) { iw = i; break; }
-            o.fail(cplx ? "fft:value:complex" : "fft:value:real",
-                   fmt("FftFilter<%s> nh=%d (%s) block=%d nx=%d (%s) frames=%s: block %d of %d: ||y-yref||_2=%.3Lg > 128 N eps ||c||_1 (||x_blk||+||x_prev||) = %.3Lg; worst sample y[%zu]=(%.17g,%.17g) ref=(%.17Lg,%.17Lg)",
-                       cplx ? "cmplx" : "real", nh, h_name(hcls), B, nx, x_name(xcls), f_name(fm), j, nblk, en, tol, iw, y[iw].real(), y[iw].imag(), R.yr[iw], R.yi[iw]));
+            // complex h, real x: is the real part right and only the (unrepresentable) imaginary part of the sum missing?
+            const bool only_imag = mix == MIX_CH_RX && fin && nrm(ere, mre) <= tol;
+            const std::string sig = only_imag ? "fft:complex-h/real-x:imag-dropped" : mix == MIX_SAME ? (cplx ? "fft:value:complex" : "fft:value:real") : std::string("fft:value:") + tname;
+            o.fail(sig,
+                   fmt("FftFilter<%s> nh=%d (%s) block=%d nx=%d (%s) frames=%s: block %d of %d: ||y-yref||_2=%.3Lg > 128 N eps ||c||_1 (||x_blk||+||x_prev||) = %.3Lg; worst sample y[%zu]=(%.17g,%.17g) ref=(%.17Lg,%.17Lg)%s",
+                       tname, nh, h_name(hcls), B, nx, x_name(xcls), f_name(fm), j, nblk, en, tol, iw, y[iw].real(), y[iw].imag(), R.yr[iw], R.yi[iw],
+                       only_imag ? " -- the real part agrees; process(arr_real) returns arr_real and drops the imaginary part of sum_k conj(c[k]) x[i-k]" : ""));
             break;
         }
         const ld told = tol + tdn;   // derived: both are within their own bound of the same sum
         const double rd = told > 0 ? double(edn / told) : (edn == 0 ? 0.0 : 1e300);
         worst_d = std::max(worst_d, rd);
-        if (!(edn <= told)) {
-            o.fail("fft-vs-direct", fmt("FftFilter vs FirFilter nh=%d block=%d nx=%d: block %d differs by ||.||_2=%.3Lg > %.3Lg (sum of both a-priori bounds)", nh, B, nx, j, edn, told));
+        if (direct && !(edn <= told)) {
+            o.fail(mix == MIX_SAME ? "fft-vs-direct" : "fft-vs-direct:mixed",
+                   fmt("FftFilter<%s> vs FirFilter nh=%d block=%d nx=%d: block %d differs by ||.||_2=%.3Lg > %.3Lg (sum of both a-priori bounds)", tname, nh, B, nx, j, edn, told));
             break;
         }
     }
-    o.metric("fft err/tol", worst);
-    o.metric("fft-vs-direct err/tol", worst_d);
+    o.metric(mix == MIX_SAME ? "fft err/tol" : "fft mixed-type err/tol", worst);
+    if (direct) o.metric(mix == MIX_SAME ? "fft-vs-direct err/tol" : "fft-vs-direct mixed-type err/tol", worst_d);
     int k2 = 1;
     while (k2 < 2 * nh) k2 *= 2;
     o.label(B == k2 - nh + 1 ? "block:2^k-m+1" : "block:other");   // informational: the text only says "its block size"
-    if (nx > nh && nblk >= 2 && nonzero) o.nontrivial(key_of(2, int(cplx), nh, len_class(nx), hcls, xcls));
+    if (nx > nh && nblk >= 2 && nonzero) o.nontrivial(key_of(2, mix == MIX_SAME ? int(cplx) : 1 + mix, nh, len_class(nx), hcls, xcls));
     o.label(std::string("h:") + h_name(hcls));
     o.label(std::string("x:") + x_name(xcls));
-    o.label(cplx ? "type:complex" : "type:real");
+    if (mix == MIX_SAME) o.label(cplx ? "type:complex" : "type:real");
+    else {
+        o.label(std::string("type:") + tname + (mix == MIX_CH_RX && reonly ? " (real part only)" : ""));
+        o.label(std::string("mixed ") + tname + " frames:" + f_name(fm));
+        o.label(std::string("mixed ") + tname + (nblk == 0 ? " blocks:0" : nblk == 1 ? " blocks:1" : " blocks:2+"));
+        if (mix == MIX_CH_RX && reonly) o.label("excluded:complex-h/real-x imaginary part of the sum (arr_real return type); real part checked");
+    }
     o.label("nx:" + len_label(nx));
     o.label(std::string("frames:") + f_name(fm));
     o.label(nblk == 0 ? "blocks:0 (nothing emitted)" : nblk == 1 ? "blocks:1" : nblk < 8 ? "blocks:2..7" : "blocks:8+");
     if (near_pow2(nh)) o.label("nh:2^k-1|2^k|2^k+1");
+    if (nh <= 2) o.label(nh == 1 ? "nh:1 (single tap; no FirFilter comparison)" : "nh:2");
 }
 
 static void fftf_gen(Ctx& ctx) {
@@ -455,6 +705,47 @@ static void fftf_gen(Ctx& ctx) {
         nx = std::max(0, nx);
         return Json::object().set("cplx", pick(0, 1)).set("nh", nh).set("hcls", pick(0, H_NCLS - 1)).set("nx", nx).set("xcls", pick(0, X_NCLS - 1)).set("fm", pick(0, F_NMODES - 1))
           .set("seed", (long long)seed64());
+    });
+    // (2b) mixed coefficient/input types for every coefficient length 1..1024 (2..3 blocks of input), and the single tap (same types)
+    auto case_mixed = [](int mix, int nh, int hcls, int nx, int xcls, int fm, long long seed) {
+        Json cs = Json::object().set("cplx", mix == MIX_CH0_RX ? 0 : 1).set("mix", mix).set("nh", nh).set("hcls", hcls).set("nx", nx).set("xcls", xcls).set("fm", fm).set("seed", seed);
+        if (mix == MIX_CH_RX) cs.set("reonly", 1);   // excluded class: see fftf_check
+        return cs;
+    };
+    for (int nh = 1; nh <= 1024; ++nh) {
+        const int reps = ctx.by_tier(1, 3);
+        for (int v = 0; v < reps; ++v) {
+            if (!ctx.mine()) continue;
+            Rng r(mix(ctx.seed, key_of(nh, v, 0xFF8)));
+            int k2 = 1;
+            while (k2 < 2 * nh) k2 *= 2;
+            const int B = k2 - nh + 1;
+            const int nx = 2 * B + r.range(0, B + 2);
+            const int mixv = 1 + (nh + v) % 3;
+            ctx.eval(case_mixed(mixv, nh, v == 0 ? int(H_RANDOM) : r.range(0, H_NCLS - 1), nx, v == 0 ? (nh % 2 ? int(S_DYNRANGE) : int(S_GAUSS)) : r.range(0, X_NCLS - 1), r.range(0, 3),
+                                (long long)(r.next() >> 16)));
+        }
+    }
+    for (int cplx = 0; cplx < 2; ++cplx)
+        for (int hcls = 0; hcls < H_NCLS; ++hcls)
+            for (int fm = 0; fm < F_NMODES; ++fm) {
+                if (!ctx.mine()) continue;
+                Rng r(mix(ctx.seed, key_of(cplx, hcls, fm, 0xFF9)));
+                ctx.eval(Json::object().set("cplx", cplx).set("nh", 1).set("hcls", hcls).set("nx", r.range(0, 9)).set("xcls", r.range(0, X_NCLS - 1)).set("fm", fm).set("seed", (long long)(r.next() >> 16)));
+            }
+    ctx.rc("mixed", ctx.by_tier(8000, 128000), [&]() {
+        const int mixv = pick(0, 3);
+        const int nh = (mixv == MIX_SAME || pick(0, 7) == 0) ? pick(1, 2) : pick_nh();   // same types only for the 1-/2-tap vectors here
+        int k2 = 1;
+        while (k2 < 2 * nh) k2 *= 2;
+        const int B = k2 - nh + 1;
+        int mode = pick(0, 19);
+        const int top = std::min(20000, std::max(8 * B, 1000000 / nh));
+        int nx = mode == 0 ? 0 : mode == 1 ? pick(1, B) : mode <= 4 ? B * pick(1, 4) + pick(-1, 1) : mode <= 12 ? std::min(top, B * pick(2, 9) + pick(0, B - 1)) : pick_log(1, top);
+        nx = std::max(0, nx);
+        const int hcls = pick(0, H_NCLS - 1), xcls = pick(0, X_NCLS - 1), fm = pick(0, F_NMODES - 1);
+        if (mixv == MIX_SAME) return Json::object().set("cplx", pick(0, 1)).set("nh", nh).set("hcls", hcls).set("nx", nx).set("xcls", xcls).set("fm", fm).set("seed", (long long)seed64());
+        return case_mixed(mixv, nh, hcls, nx, xcls, fm, (long long)seed64());
     });
     // (3) long inputs
     {
@@ -531,6 +822,12 @@ static void xc_check(const Json& c, Out& o) {
     if (!autoc) o.label(std::string("b:") + x_name(cb));
     o.label(n1 == n2 ? "n1==n2" : n1 < n2 ? "n1<n2" : "n1>n2");
     o.label(nout == M ? "n1+n2-1 == 2^k (no padding)" : "padded");
+    if (nout >= 7 && (nout == M || nout == M - 1 || nout == M / 2 + 1)) {   // the zero-padding length changes between 2^k and 2^k+1
+        const char* lc = std::max(n1, n2) <= 48 ? "len<=48" : std::max(n1, n2) <= 512 ? "len 49..512" : "len 513..5000";
+        o.label(std::string("boundary:") + (cplx ? "complex" : "real") + (autoc ? "(auto)" : "") + ": n1+n2-1 = " + (nout == M ? "2^k" : nout == M - 1 ? "2^k-1" : "2^k+1") + ", " + lc);
+        if (!autoc) o.label(std::min(n1, n2) * 4 < std::max(n1, n2) ? "boundary-split:unbalanced (min < max/4)" : "boundary-split:balanced");
+        if (M >= 8192) o.label("boundary:around 8192 (largest padding length reachable with lengths <= 5000)");
+    }
     o.label(std::max(n1, n2) <= 48 ? "len:1..48" : std::max(n1, n2) <= 512 ? "len:49..512" : "len:513..5000");
 }
 static void xc_gen(Ctx& ctx) {
@@ -553,12 +850,37 @@ static void xc_gen(Ctx& ctx) {
                 if (!ctx.mine()) continue;
                 ctx.eval(Json::object().set("cplx", cplx).set("auto", 1).set("n1", n).set("n2", n).set("ca", cls).set("cb", cls).set("seed", (long long)(mix(ctx.seed, key_of(n, cplx, cls, 77)) >> 16)));
             }
+    // length sums straddling every power of two reachable with lengths <= 5000: n1+n2-1 in {2^k-1, 2^k, 2^k+1}, k = 3..13, real and
+    // complex, with the shortest possible a, the shortest possible b, an even split and a random split
+    for (int k = 3; k <= 13; ++k)
+        for (int d = -1; d <= 1; ++d)
+            for (int cplx = 0; cplx < 2; ++cplx)
+                for (int sp = 0; sp < 4; ++sp) {
+                    if (!ctx.mine()) continue;
+                    const int S = (1 << k) + d + 1;   // n1 + n2
+                    const int lo = std::max(1, S - 5000), hi = std::min(5000, S - 1);
+                    Rng r(mix(ctx.seed, key_of(k, d + 1, cplx, sp, 0xB0D)));
+                    const int n1 = sp == 0 ? lo : sp == 1 ? hi : sp == 2 ? S / 2 : r.range(lo, hi);
+                    const int ca = sp == 3 ? r.range(0, X_NCLS - 1) : (k + sp) % 2 ? int(S_GAUSS) : int(S_DYNRANGE), cb = sp == 3 ? r.range(0, X_NCLS - 1) : int(S_GAUSS);
+                    ctx.eval(Json::object().set("cplx", cplx).set("auto", 0).set("n1", n1).set("n2", S - n1).set("ca", ca).set("cb", cb).set("seed", (long long)(r.next() >> 16)));
+                }
     // (2) sampled to 5000
     ctx.rc("sampled", ctx.by_tier(40000, 320000), [&]() {
         int n1 = pick_log(1, 5000), n2 = pick_log(1, 5000);
         int m = pick(0, 7);
+        bool boundary = false;
+        if (m == 1) {   // n1+n2-1 = 2^k + {-1,0,1} exactly, k up to 13, split anywhere the lengths allow (not only n1 ~ n2)
+            int k = pick(3, 13);
+            if (k >= 12 && pick(0, 2) != 0) k = pick(3, 11);   // the two largest sums cost 4e6..2e7 reference terms each: a third of their share
+            const int S = (1 << k) + pick(-1, 1) + 1;
+            const int lo = std::max(1, S - 5000), hi = std::min(5000, S - 1);
+            n1 = pick(0, 2) == 0 ? pick(lo, hi) : lo - 1 + pick_log(1, hi - lo + 1);
+            n2 = S - n1;
+            if (flip()) std::swap(n1, n2);
+            boundary = true;
+        }
         if (m == 0) { int k = pick(1, 12); n1 = std::max(1, std::min(5000, (1 << k) / 2 + pick(-1, 1))); n2 = std::max(1, std::min(5000, (1 << k) + pick(-1, 2) - n1)); }   // n1+n2-1 around 2^k
-        int au = pick(0, 4) == 0;
+        int au = !boundary && pick(0, 4) == 0;
         return Json::object().set("cplx", pick(0, 1)).set("auto", au).set("n1", n1).set("n2", au ? n1 : n2).set("ca", pick(0, X_NCLS - 1)).set("cb", pick(0, X_NCLS - 1))
           .set("seed", (long long)seed64());
     });
